@@ -173,7 +173,8 @@ def match_files(rule_path, input_path, mode="list", search="all", only_addr=Fals
     from jasm.logging_config import logger as jasm_logger  # the library's own logger object (its level is set explicitly)
 
     old_level = jasm_logger.level
-    debug = DEBUGLOG_MOD and selector % DEBUGLOG_MOD == 2
+    # (the input is part of the choice as well: checks that always ask with the same rule would otherwise never run at DEBUG level)
+    debug = DEBUGLOG_MOD and (selector % DEBUGLOG_MOD == 2 or _selector(rule_path, mode, search, only_addr, input_path) % DEBUGLOG_MOD == 2)
     if debug:
         jasm_logger.setLevel(logging.DEBUG)  # the answer must not depend on how much is logged
     try:
